@@ -303,7 +303,9 @@ def WF (env : Env) : Bool :=
   env.absIterExcluded.contains "str" && env.absIterExcluded.contains "bytes" &&
   regLookup env.foldCatch "UnregisteredTarget" == some "FoldError" &&
   env.excTable.isSub "FoldError" "GlomError" &&
-  !(env.excTable.isSub "TypeError" "GlomError") && !(env.excTable.isSub "ValueError" "GlomError")
+  !(env.excTable.isSub "TypeError" "GlomError") && !(env.excTable.isSub "ValueError" "GlomError") &&
+  -- an itertools.chain object is iterated through `_AbstractIterable`'s handler
+  iterHandlerOf env "chain" true == some "iter"
 
 /-- source-shape facts of glom/reduction.py the model's control flow is a transcription of -/
 structure SrcFacts where
